@@ -20,9 +20,9 @@ def isErr : Spec.Val N → Bool
 def finite (x : N) : Bool := !isNaN x && !isInf x
 
 def cleanB : Spec.Val N → Bool
-  | .num x => !isNaN x
+  | .num x => !isNaN x && !isInf x
   | .text s => match (parse s : Option N) with
-    | some x => !isNaN x
+    | some x => !isNaN x && !isInf x
     | none => true
   | _ => true
 
@@ -87,7 +87,7 @@ def compatible (op : Op) (a b : Spec.Val N) : Bool :=
   | .mul => arithOperands a b && both a b fun x y => finite (mul x y)
   | .div => arithOperands a b && both a b fun x y => isZero y || finite (div x y)
   | .pow => arithOperands a b && both a b fun x y =>
-      (!isZero x || (!isZero y && !lt y zero)) && finite (pow x y)
+      !(!isZero x || (!isZero y && !lt y zero)) || finite (pow x y)
   | .concat => !isErr a && !isErr b && plainNum a && plainNum b
   | .lt => compatOrd a b
   | .le => compatOrd a b
@@ -98,21 +98,14 @@ def compatible (op : Op) (a b : Spec.Val N) : Bool :=
 
 def b2n (b : Bool) : N := if b then one else zero
 
-def negOK : Spec.Val N → Bool
+def unaryOK (f : N → N) : Spec.Val N → Bool
   | .err _ => true
-  | .num x => !isNaN x && finite (sub zero x)
-  | .bool b => finite (sub zero (b2n b : N))
-  | .blank => finite (sub (zero : N) zero)
-  | .text s => match (parse s : Option N) with
-    | some x => !isNaN x && finite (sub zero x)
-    | none => false
+  | a => !emptyText a && cleanB a && (match Spec.toNum a with
+    | .ok x => finite (f x)
+    | .error _ => true)
 
-def pctOK : Spec.Val N → Bool
-  | .err _ => true
-  | .num x => finite (div x (ofNat 100))
-  | .bool b => finite (div (b2n b : N) (ofNat 100))
-  | .blank => finite (div (zero : N) (ofNat 100))
-  | .text _ => false
+def negOK (a : Spec.Val N) : Bool := unaryOK (fun x : N => sub zero x) a
+def pctOK (a : Spec.Val N) : Bool := unaryOK (fun x : N => div x (ofNat 100)) a
 
 def isNeg : Expr → Bool
   | .neg _ => true
@@ -121,7 +114,7 @@ def isNeg : Expr → Bool
 /-- mirror of `NoDeviant`; `refOK k` = the EnvRel condition at cell k -/
 def noDeviant (envS : Str → Option (Spec.Val N)) (refOK : Str → Bool) : Expr → Bool
   | .num raw => match (parse raw : Option N) with
-    | some x => !isNaN x
+    | some x => !isNaN x && !isInf x
     | none => false
   | .text _ => true
   | .logical _ => true
